@@ -6,6 +6,11 @@ def key_fn(case, obs, verdict):
     f = case.split(" ")
     if f[0] == "nest":
         return "registry-overlap:%s:%s-%s-def%s:%s:%s" % ({"r": "nested", "g": "goroutine"}.get(f[1], f[1]), f[2], f[3], f[6], f[8], "creation-spec" if "overlapping" in verdict else verdict.split("(")[0][:40])
+    if f[0] == "kind":
+        what = "config-error" if "invalid configuration" in verdict else "product-config"
+        return "register-helper:%s:%s-def%s:%s:%s" % (f[1], f[2], f[3], f[4], what)
+    if f[0] == "conc":
+        return "registry-concurrent:%s:%s:%s-def%s:%s" % ({"h": "config-decode", "r": "registry"}.get(f[1], f[1]), {"N": "new", "F": "factory-calls"}.get(f[2], f[2]), f[3], f[4], "own-config")
     if f[0] == "hookn":
         return "registry-hook-nested:%s:%s" % (f[1], "product-config")
     if f[0] == "hook":
@@ -25,7 +30,12 @@ def run(ctx):
               "New/factory call is made; distinct = distinct case lines (full enumeration of shapes x requested form "
               "x fill/no fill x call counts x single failure positions)"),
         key_fn=key_fn,
+        translators=[("register", "RegisterHelpersGen.v")],
+        bridge_files=["Gen/RegisterHelpers_bridge.v"],
         trusted=[
+            "translator harness/cmd/translate register (go/ast over core/register/register.go: one row per helper - declared interface, callee, what each argument is); bridge Gen/RegisterHelpers_bridge.v",
+            "kind cases: register.Provider/Limiter/Gun/Aggregator/DataSource/DataSink with and without a default-config function, created through pluginconfig hooks + config.Decode into a field of the kind's interface / factory types; verdict as for hook cases (expected_arg of the shape the user registered)",
+            "conc cases: G goroutines released together create K products each (Registry.New / calls of one or of per-goroutine factories; through config.Decode + hooks and through a fresh plugin.Registry); the model Model/RegistryConc.v is replayed on the order of default invocations read off the observation, the verdict is conc_b (proved for every schedule: C18_concurrent_products); the driver keeps the model's function-valued state in arrays between steps",
             "extraction: ExtrOcamlBasic only; OCaml driver ocaml/C18/main.ml (parses the harness's event lines into the model's datatypes) + ocaml/common/conv.ml",
             "nest cases: overlapping creations of the same registered entry (the fillConf lets another Registry.New of the same name run to completion, inline or in a second goroutine it waits for); verdict nest_b, proved of the model (C18_overlapping_creations)",
             "hook cases: core/register + pluginconfig.AddHooks + config.Decode (mapstructure) over the default registry; the verdict compares each product with the specification-side expected_arg (proved equal to the model: C18_new_config, C18_plugin_factory_config)",
